@@ -152,6 +152,35 @@ CHECKS = {
 
 NOT_APPLICABLE = {}
 
+# code ties added after the per-property texts were written (session 3, batches 1-5): appended to the level text, and the note gains CODE_NOTE where it lacked it
+EXTRA = {
+ "C01": " C01_code_tabulation_write: LAMMPS_PairTabulation.write and its dr property regenerated from the source hand dr, cutoff, nr-1 to the writer: lammpsTable.",
+ "C02": " C02_code_tabulation_write: DLPoly_PairTabulation.write regenerated from the source hands cutoff and nr to the writer.",
+ "C03": " C03_code_header, C03_code_write_alloy, C03_code_tabulation_write: the header writer (comments, ntypes and names, grid line built from its constant template), the public writeSetFL "
+        "(cutoff default nr*dr when None or zero) and SetFL_EAMTabulation.write with its step properties, regenerated from the source, write the model's whole file.",
+ "C04": " C04_code_write_fs, C04_code_tabeam_fs, C04_code_tabeam_fs_missing, C04_code_tabulation_write_setfl/_tabeam: writeSetFLFinnisSinclair, writeTABEAMFinnisSinclair (A in element "
+        "order, B in sorted order, dictionary look-up under 'dens A B'; a missing entry raises and nothing is written) and the two Finnis-Sinclair tabulation classes' write methods, "
+        "regenerated from the source, write the model's files.",
+ "C05": " C05_code_tabulate/_embedding/_density_*/_pair_potentials/_except_density/_write/_tabulation_write: every function of _dlpoly_writeTABEAM.py and TABEAM_EAMTabulation.write "
+        "regenerated from the source write the model's tabeam; that sorted(set(sorted pairs)) is the triangular enumeration of the sorted labels is proved.",
+ "C11": " C11_code_pair_defaults/_eam_defaults/_dlpoly_cutoffs/_lammps_cutoffs: the four extract_cutoffs methods of the tabulation factories regenerated from the source fill in exactly "
+        "cutoff 10, nr 1001, cutoff_rho 100, nrho 1001 and refuse exactly the row counts the targets cannot lay out.",
+ "C13": " C13_code_views: the four filtered properties of FilteredConfigParser regenerated from the source are filteredView.",
+ "C14": " C14_code_apply_overrides: the override / removal / addition loops of _init_config_parser regenerated from the source, run on the model's parser operations, are applyOps for every "
+        "file and operation lists; C14_code_parse_item_value/_novalue, C14_code_cli_operations, C14_cli_dict_model: the command-line layer (_create_override_tuple, _item_id, the ordered "
+        "dictionary of _make_config_parser) regenerated from the source is cliOverrides.",
+ "C16": " C16_code_pair_species(_iff/_no_unpack), C16_split_spec, C16_code_signature_check: the pair-key parser and the signature name-clash loop regenerated from the source are splitKey / validSignature.",
+ "C17": " C17_code_lammps/_dlpoly/_gulp/_setfl/_setfl_fs/_tabeam/_tabeam_fs/_tabulation_objects: for every whole-file writer and tabulation class on the text targets (ADP included) a "
+        "destination-mode twin regenerated from the same source (one chunk per write call reaching the destination) receives, for EVERY input, exactly one chunk holding the complete "
+        "table, or nothing when the writer itself raises; C17_code_trace: that history is traceBuffered.",
+ "C18": " C18_code_find_index/_get_value/_index_in_range, C18_code_plot: TableReaderBase._findIndex / getValue (every index in range) and plotToFile regenerated from the source are the model's functions.",
+ "C19": " C19_code_adp_write: ADP_EAMTabulation.write with _write_dipole/_write_quadrupole regenerated from the source (three files) writes the model's adp.",
+ "C20": " C20_code_dup_pairs(_ok_iff), C20_code_dup_table_forms, C20_code_build_potential_forms/_build_table_forms/_check_labels_case: the duplicate checks of the parser and the label checks of "
+        "the form registry regenerated from the source decide dupPairs / dupLabels.",
+ "C07": " C07_pow_d1_zero_base/_d2_zero_base: the guards of pow.deriv / pow.deriv2 (vanishing base, constant whole exponent), regenerated from the source, return the derivatives.",
+}
+
+
 def main():
     props = [json.loads(l)["id"] for l in open(os.path.join(ROOT, "properties.jsonl"))]
     checks = []
@@ -166,8 +195,8 @@ def main():
             evidence_file="evidence/%s.json" % pid,
             replay_cmd_template="./check %s --replay {path}" % pid,
             engine="lean-proof+correspondence",
-            level_claimed=dict(category=c.get("category", "proof"), text=c["text"], design_ref=c["ref"]),
-            level_note=c["note"],
+            level_claimed=dict(category=c.get("category", "proof"), text=c["text"] + EXTRA.get(pid, ""), design_ref=c["ref"]),
+            level_note=c["note"] + (CODE_NOTE if pid in EXTRA and CODE_NOTE not in c["note"] else ""),
             technique=c["technique"]))
     na = []
     for pid in props:
@@ -180,7 +209,7 @@ def main():
                    baseline_off_cmd="cd /repo && /venv/bin/python -m pytest -ra -q -p no:cacheprovider --timeout=900 --continue-on-collection-errors",
                    source_commits=[], add_only=True),
         engines=[dict(name="lean-proof+correspondence", path="lean/ + harness/ + translator/", serves_properties=[c["property_id"] for c in checks],
-                      kind_free_text="Lean 4 models and theorems (lake project lean/), a Python->Lean translator for expression-level code, and a Python correspondence harness that runs the real code and the Lean model's executable definitions on the same generated inputs through a JSON line protocol")],
+                      kind_free_text="Lean 4 models and theorems (lake project lean/), two Python->Lean translators (expression-level formulas and kernels; statement-level functions: writers, parser, command line, factories), and a Python correspondence harness that runs the real code and the Lean model's executable definitions on the same generated inputs through a JSON line protocol")],
         checks=checks,
         notes="See DESIGN.md. Exit codes: 0 held, 1 VIOLATION line printed, 2 infrastructure failure (never a verdict). known_findings.json lists recorded findings and fixed defects.",
         not_applicable=na)
